@@ -57,6 +57,31 @@ def make_reps(gspec):
     elif kind == 'sep':
         sx, sy = np.array(gspec[1], float), np.array(gspec[2], float)
         sep = (sx, sy)
+    elif kind == 'alias-sep':
+        # ONE ndarray object serves as both axes (an idiom hcipy uses itself, e.g. shack_hartmann.py)
+        a = np.array(gspec[1], float)
+        reps['separated'] = hcipy.CartesianGrid(hcipy.SeparatedCoords((a, a)))
+        reps['separated-indep'] = hcipy.CartesianGrid(hcipy.SeparatedCoords((a.copy(), a.copy())))
+        xs, ys = np.array(reps['separated-indep'].x), np.array(reps['separated-indep'].y)
+        reps['unstructured'] = hcipy.CartesianGrid(hcipy.UnstructuredCoords([xs.copy(), ys.copy()]))
+        reps['polar'] = reps['unstructured'].as_('polar')
+        return reps, xs, ys, (a.copy(), a.copy())
+    elif kind == 'alias-pts':
+        # points on the diagonal: ONE ndarray object serves as both coordinate columns
+        a = np.array(gspec[1], float)
+        reps['unstructured'] = hcipy.CartesianGrid(hcipy.UnstructuredCoords((a, a)))
+        reps['unstructured-indep'] = hcipy.CartesianGrid(hcipy.UnstructuredCoords((a.copy(), a.copy())))
+        reps['polar'] = reps['unstructured-indep'].as_('polar')
+        return reps, a.copy(), a.copy(), None
+    elif kind == 'alias-regular':
+        # delta and zero are ONE ndarray object
+        _, n, dz = gspec
+        a = np.array([dz, dz], float)
+        g = hcipy.CartesianGrid(hcipy.RegularCoords(a, np.array([n, n], int), a))
+        reps['regular'] = g
+        gi = hcipy.CartesianGrid(hcipy.RegularCoords(np.array([dz, dz], float), np.array([n, n], int), np.array([dz, dz], float)))
+        sx, sy = [np.array(c, float) for c in gi.separated_coords]
+        sep = (sx, sy)
     elif kind == 'polarsep':
         rs, ths = np.array(gspec[1], float), np.array(gspec[2], float)
         pg = hcipy.PolarGrid(hcipy.SeparatedCoords([rs, ths]))
@@ -78,7 +103,7 @@ def make_reps(gspec):
 
 FAMILIES = ('regular', 'regular-xdesc', 'regular-ydesc', 'regular-reversed', 'regular-scaled-1', 'regular-scaled-x',
             'regular-scaled-y', 'sep-asc', 'sep-desc', 'sep-mixed', 'sep-permuted', 'sep-repeated', 'size1-x', 'size1-y',
-            'polar-r0', 'polar')
+            'polar-r0', 'polar', 'alias-sep', 'alias-pts', 'alias-regular')
 
 
 def gen_grid_family(rng, fam, nmax=9, half=2.5, centre=(0.0, 0.0), exact=True):
@@ -93,6 +118,20 @@ def gen_grid_family(rng, fam, nmax=9, half=2.5, centre=(0.0, 0.0), exact=True):
         nx = 1
     if fam == 'size1-y':
         ny = 1
+    if fam == 'alias-sep' or fam == 'alias-pts':
+        n = nx if fam == 'alias-sep' else nx + ny
+        c = 0.5 * (centre[0] + centre[1])
+        v = sorted(c + half * num(-1, 1, 9) for _ in range(n))
+        m = rng.random()
+        if m < 0.3:
+            v = v[::-1]
+        elif m < 0.45:
+            v = [float(t) for t in rng.permutation(v)]
+        return [fam, [float(t) for t in v]]
+    if fam == 'alias-regular':
+        # delta == zero: the grid starts at (d, d); centre it roughly by choosing the sign
+        d = half * num(0.0625, 0.3, 6) * (1.0 if rng.random() < 0.5 else -1.0)
+        return ['alias-regular', int(max(nx, 2)), float(d)]
     if fam.startswith('regular') or (fam.startswith('size1') and rng.random() < 0.5):
         ext = half * num(0.8, 2, 4)
         dx = ext / max(nx, 2) if rng.random() < 0.5 else half * num(0.0625, 0.4, 6)
@@ -142,7 +181,7 @@ def gen_grid_family(rng, fam, nmax=9, half=2.5, centre=(0.0, 0.0), exact=True):
     return ['polarsep', [float(v) for v in rs], ths]
 
 
-FAMILY_WEIGHTS = [8, 5, 5, 4, 4, 3, 3, 8, 7, 6, 6, 3, 4, 4, 6, 6]
+FAMILY_WEIGHTS = [8, 5, 5, 4, 4, 3, 3, 8, 7, 6, 6, 3, 4, 4, 6, 6, 6, 3, 3]
 
 
 def gen_grid(rng, big):
@@ -162,6 +201,8 @@ def grid_features(gspec, sep):
         if np.all(d < 0):
             return 'desc'
         return 'mixed'
+    if gspec[0] == 'alias-pts':
+        return ['alias-pts:diagonal']
     if gspec[0] == 'polarsep':
         return ['polar:r0=0' if gspec[1][0] == 0 else 'polar:r0>0', 'polar:theta-' + direction(np.array(gspec[2]))]
     kind = gspec[0] + ('(' + gspec[4] + ')' if len(gspec) > 4 else '')
@@ -426,6 +467,29 @@ def on_boundary(gen, x, y, tol):
     return bool(np.ptp(v) > 0)
 
 
+def snapshot(g):
+    """everything the caller owns of a grid, bit for bit (coordinates and materialised weights)"""
+    c = g.coords
+    if g.is_regular:
+        parts = [np.array(c.delta), np.array(c.dims), np.array(c.zero)]
+    elif g.is_separated:
+        parts = [np.array(a) for a in c.separated_coords]
+    else:
+        parts = [np.array(a) for a in c.coords]
+    w = g._weights
+    return (type(g).__name__, type(c).__name__, [(a.dtype.str, a.shape, a.tobytes()) for a in parts],
+            None if w is None else (np.asarray(w).dtype.str, np.asarray(w).shape, np.asarray(w).tobytes()))
+
+
+def materialise_weights(g):
+    """weights that can be computed automatically are computed before the evaluation, so that they are
+    part of the snapshot (Cartesian regular/separated grids)"""
+    if g.is_('cartesian') and g.is_separated and all(len(a) > 1 for a in g.separated_coords):
+        with warnings.catch_warnings():
+            warnings.simplefilter('ignore')
+            g.weights
+
+
 def rep_class(name):
     return 'polar' if name.startswith('polar') else name
 
@@ -437,8 +501,12 @@ def oracle(ctx, label, gen, reps, xs, ys, scale, allowed, binary=True, check_ran
     res = {}
     fails = []
     for name, g in reps.items():
+        materialise_weights(g)
+        before = snapshot(g)
         vals, err, attached = evaluate(gen, g)
         res[name] = vals
+        if snapshot(g) != before:
+            fails.append(('%s:grid-modified:%s' % (label, rep_class(name)), '%s: the %s grid handed in is not bit-identical after the evaluation (coordinates or weights changed)' % (label, name)))
         if err is not None:
             fails.append(('%s:raises:%s:%s' % (label, rep_class(name), err), '%s raises %s on a %s grid' % (label, err, name)))
             if ctx is not None:
@@ -450,7 +518,7 @@ def oracle(ctx, label, gen, reps, xs, ys, scale, allowed, binary=True, check_ran
             bad = [float(v) for v in np.unique(vals) if not any(abs(v - t) <= 1e-12 for t in allowed)]
             if bad or vals.min() < 0 or vals.max() > 1:
                 fails.append(('%s:range' % label, '%s takes the value(s) %r on a %s grid' % (label, bad[:3], name)))
-    order = [n for n in ('regular', 'separated', 'unstructured', 'polar', 'polar-separated') if res.get(n) is not None]
+    order = [n for n in ('regular', 'separated', 'separated-indep', 'unstructured', 'unstructured-indep', 'polar', 'polar-separated') if res.get(n) is not None]
     if len(order) >= 2:
         ref = order[0]
         for name in order[1:]:
@@ -469,6 +537,61 @@ def oracle(ctx, label, gen, reps, xs, ys, scale, allowed, binary=True, check_ran
                               '%s: value at the point (%r, %r) is %r on the %s grid but %r on the %s grid (%d of %d points differ)' % (
                                   label, float(xs[i]), float(ys[i]), float(res[ref][i]), ref, float(res[name][i]), name, len(d), len(xs))))
     return res, fails
+
+
+HISTORY_B = [['ellipse', [2.0, 1.0], [0.5, 0.25], 0.5], ['shifted', ['rect', [1.5, 1.0], None], [0.5, -0.25]],
+             ['hexseg', 1, 0.75, 0.0625, 0], ['rotated', ['regpoly', 5, 1.5, 0.0, [0.25, 0.0]], 0.5],
+             ['circle', 1.25, [0.0, 0.375]], ['irrpoly', [[-0.75, -0.5], [1.0, -0.25], [0.25, 1.0]]]]
+
+
+def oracle_history(label, gen_a, res_a, reps, gspec, b_index, size=1.0):
+    """History on ONE grid object: A was evaluated on `reps` (values res_a); now B, then A again.
+    A must reproduce its values, and B must give what it gives on a grid never used before.
+    Returns [(key, what)]."""
+    bspec = HISTORY_B[b_index % len(HISTORY_B)]
+    if size != 1.0:
+        bspec = scale_spec(bspec, size)
+    gen_b = build(bspec)[0]
+    fresh = make_reps(gspec)[0]
+    fails = []
+    for name, g in reps.items():
+        if res_a.get(name) is None:
+            continue
+        before = snapshot(g)
+        b1, err_b, _ = evaluate(gen_b, g)
+        a2, err_a, _ = evaluate(gen_a, g)
+        b0, err_0, _ = evaluate(gen_b, fresh[name])
+        if snapshot(g) != before:
+            fails.append(('%s:grid-modified:%s' % (label, rep_class(name)), '%s: the %s grid is not bit-identical after evaluating %s and %s on it' % (label, name, bspec[0], label)))
+        if a2 is None or not np.array_equal(a2, res_a[name]):
+            fails.append(('%s:history:%s' % (label, rep_class(name)), '%s gives different values on the same %s grid object after %s was evaluated on it (%s)' % (
+                label, name, bspec[0], err_a or '%d points differ' % int(np.count_nonzero(a2 != res_a[name])))))
+        if (b1 is None) != (b0 is None) or (b1 is not None and not np.array_equal(b1, b0)):
+            fails.append(('%s:history:%s' % (bspec[0], rep_class(name)), '%s gives different values on a %s grid object that %s was evaluated on before than on a fresh one' % (bspec[0], name, label)))
+    return fails
+
+
+def scale_spec(spec, f):
+    """the shape scaled by f about the origin (lengths only)"""
+    k = spec[0]
+    sc = lambda v: None if v is None else ([t * f for t in v] if isinstance(v, list) else v * f)
+    if k == 'circle':
+        return ['circle', spec[1] * f, sc(spec[2])]
+    if k == 'ellipse':
+        return ['ellipse', sc(spec[1]), sc(spec[2]), spec[3]]
+    if k == 'rect':
+        return ['rect', sc(spec[1]), sc(spec[2])]
+    if k == 'regpoly':
+        return ['regpoly', spec[1], spec[2] * f, spec[3], sc(spec[4])]
+    if k == 'irrpoly':
+        return ['irrpoly', [sc(v) for v in spec[1]]]
+    if k == 'shifted':
+        return ['shifted', scale_spec(spec[1], f), sc(spec[2])]
+    if k == 'rotated':
+        return ['rotated', scale_spec(spec[1], f), spec[2]]
+    if k == 'hexseg':
+        return ['hexseg', spec[1], spec[2] * f, spec[3] * f, spec[4]]
+    raise MachineryError('scale_spec: %r' % (k,))
 
 
 def oracle_super(label, gen, reps, over, binary=True):
@@ -523,7 +646,7 @@ def root_kind(spec):
     return k
 
 
-def real_failures(gspec, sspec, over, ctx=None):
+def real_failures(gspec, sspec, over, ctx=None, hist=None):
     reps, xs, ys, sep = make_reps(gspec)
     gen, toks, size, binary = build(sspec)
     scale = scale_of(xs, ys, size)
@@ -533,30 +656,34 @@ def real_failures(gspec, sspec, over, ctx=None):
     if over is not None and sep is not None and len(sep[0]) >= 2 and len(sep[1]) >= 2:
         sup, f2 = oracle_super(label, gen, reps, over, binary)
         fails += f2
+    if hist is not None:
+        fails += oracle_history(label, gen, res, reps, gspec, hist)
+        if ctx is not None:
+            ctx.count('history-checks')
     return reps, xs, ys, sep, toks, scale, res, sup, fails
 
 
-def shrink(gspec, sspec, over):
+def shrink(gspec, sspec, over, hist=None):
     """smallest sub-shape that still fails on the same grid (so that the key names the culprit)"""
     for child in children(sspec):
         try:
-            fails = real_failures(gspec, child, over)[-1]
+            fails = real_failures(gspec, child, over, None, hist)[-1]
         except Exception:                                       # noqa
             continue
         if fails:
-            return shrink(gspec, child, over)
-    return sspec, real_failures(gspec, sspec, over)[-1]
+            return shrink(gspec, child, over, hist)
+    return sspec, real_failures(gspec, sspec, over, None, hist)[-1]
 
 
-def run_generic(ctx, gspec, sspec, over=None, want_model=True, corner=None):
+def run_generic(ctx, gspec, sspec, over=None, want_model=True, corner=None, hist=None):
     """Returns the model requests and a closure that checks the responses."""
-    reps, xs, ys, sep, toks, scale, res, sup, fails = real_failures(gspec, sspec, over, ctx)
+    reps, xs, ys, sep, toks, scale, res, sup, fails = real_failures(gspec, sspec, over, ctx, hist)
     label = top_kind(sspec)
-    case = {'kind': 'generic', 'grid': gspec, 'shape': sspec, 'over': over}
+    case = {'kind': 'generic', 'grid': gspec, 'shape': sspec, 'over': over, 'hist': hist}
     if fails:
-        small, sfails = shrink(gspec, sspec, over)
+        small, sfails = shrink(gspec, sspec, over, hist)
         for key, what in sfails:
-            ctx.violation(key, what, {'kind': 'generic', 'grid': gspec, 'shape': small, 'over': over, 'shrunk_from': sspec})
+            ctx.violation(key, what, {'kind': 'generic', 'grid': gspec, 'shape': small, 'over': over, 'hist': hist, 'shrunk_from': sspec})
     if sup is not None:
         ctx.count('supersampled')
     if corner is not None:
@@ -597,9 +724,9 @@ def run_generic(ctx, gspec, sspec, over=None, want_model=True, corner=None):
             if mode == 'super':
                 targets = [(n, sup.get(n)) for n in ('regular', 'separated')]
             elif mode == 'sep':
-                targets = [(n, res.get(n)) for n in ('regular', 'separated')]
+                targets = [(n, res.get(n)) for n in ('regular', 'separated', 'separated-indep')]
             else:
-                targets = [(n, res.get(n)) for n in ('unstructured', 'polar', 'polar-separated')]
+                targets = [(n, res.get(n)) for n in ('unstructured', 'unstructured-indep', 'polar', 'polar-separated')]
             for name, rv in targets:
                 if rv is None:
                     continue
@@ -816,7 +943,7 @@ def run_pupil(ctx, name, kw, gseed, over=None, fam=None, gspec_fixed=None):
     nmax = 9 if name in HEAVY else 13
     if fam is None:
         w = np.array(FAMILY_WEIGHTS, float)
-        fam = FAMILIES[int(rng.choice(len(FAMILIES), p=w / w.sum()))]
+        fam = FAMILIES[int(np.random.default_rng(gseed + 7).choice(len(FAMILIES), p=w / w.sum()))]   # own stream: replay passes fam
     half = 0.55 * D * (float(rng.uniform(0.05, 1.0)) if name.startswith('make_vlti') else float(rng.uniform(0.7, 1.1)))
     gspec = gen_grid_family(rng, fam, nmax=nmax, half=half, exact=False)
     if gspec_fixed is not None:
@@ -833,8 +960,11 @@ def run_pupil(ctx, name, kw, gseed, over=None, fam=None, gspec_fixed=None):
         pick = sorted(set(int(i) for i in rng.integers(0, len(segs), 2)))
         gens += [(label + ':segment', segs[i]) for i in pick]
         case['segments'] = pick
+    res0 = None
     for lab, gen in gens:
         res, fails = oracle(ctx, lab, gen, reps, xs, ys, scale, allowed, binary)
+        if res0 is None:
+            res0 = res
         for key, what in fails:
             ctx.violation(key, what + ' [%r]' % (kw,), case)
         nz = [v for v in res.values() if v is not None]
@@ -844,6 +974,10 @@ def run_pupil(ctx, name, kw, gseed, over=None, fam=None, gspec_fixed=None):
     for feat in grid_features(gspec, sep):
         ctx.count('axes:' + feat)
         ctx.count('cover:%s|%s' % (label, feat))
+    if gspec[0].startswith('alias') or gseed % 4 == 0:
+        for key, what in oracle_history(label, made, res0, reps, gspec, gseed, size=D / 4.0):
+            ctx.violation(key, what + ' [%r]' % (kw,), case)
+        ctx.count('history-checks')
     if over is not None and sep is not None and len(sep[0]) >= 2 and len(sep[1]) >= 2:
         for key, what in oracle_super(label, made, reps, over, binary)[1]:
             ctx.violation(key, what + ' [%r]' % (kw,), case)
@@ -922,7 +1056,7 @@ def run_keck(ctx, kw, gseed, fam):
             near = [t == '1' for t in parts[2][1:-1].split(',')] if parts[2] != '[]' else []
             if parts[3] != '1':
                 ctx.disagree('C12 model-self', {'case': case, 'detail': 'code-path model differs from point semantics', 'mode': mode})
-            names = ('regular', 'separated') if mode == 'sep' else ('unstructured', 'polar', 'polar-separated')
+            names = ('regular', 'separated', 'separated-indep') if mode == 'sep' else ('unstructured', 'unstructured-indep', 'polar', 'polar-separated')
             for name in names:
                 rv = res.get(name)
                 if rv is None:
@@ -1019,8 +1153,10 @@ def run(ctx):
             for fam in FAMILIES:
                 cases.append((gen_grid_family(ctx.rng, fam), mk(ctx.rng), None, None))
     lines, checks = [], []
-    for g, s, over, corner in cases:
-        l, chk = run_generic(ctx, g, s, over, corner=corner)
+    for k, (g, s, over, corner) in enumerate(cases):
+        # history on one grid object: always on grids with aliased buffers, else for about a third of the cases
+        hist = k if (g[0].startswith('alias') or k % 3 == 0) else None
+        l, chk = run_generic(ctx, g, s, over, corner=corner, hist=hist)
         checks.append((len(lines), len(l), chk))
         lines += l
     # coverage assertion for the corner sweep: every (maker, corner class) was evaluated without error on a polar and on
@@ -1083,6 +1219,10 @@ def run(ctx):
         if feat.startswith('polar'):
             return out
         kind, axes = feat.split(':')
+        if kind.startswith('alias'):
+            out.append('aliased-axes')
+        if kind == 'alias-pts':
+            return out
         ax = axes.split(',')
         if any(a.endswith('-desc') for a in ax):
             out.append('descending-axis')
@@ -1105,7 +1245,7 @@ def run(ctx):
                 coarse[mk][c] = coarse[mk].get(c, 0) + v
     ctx.extra['maker_by_axis_class'] = coarse
     all_classes = ['descending-axis', 'mixed-direction', 'unsorted-axis', 'size-1-axis', 'library-reversed/scaled(-1)',
-                   'regular-negative-delta', 'polar-with-origin']
+                   'regular-negative-delta', 'polar-with-origin', 'aliased-axes']
     watched = ['circle', 'ellipse', 'rect', 'regpoly', 'irrpoly', 'spider', 'spiderinf', 'obstructed', 'obstruction', 'rotated',
                'shifted', 'segmented(regpoly)', 'segmented(circle)', 'hexseg'] + ['pupil:' + n[5:] for n in HEX_PUPILS]
     least = min(((coarse.get(m, {}).get(c, 0), m, c) for m in watched for c in all_classes), default=None)
@@ -1120,7 +1260,7 @@ def replay(ctx, case):
     elif case.get('kind') == 'pupil':
         run_pupil(ctx, case['name'], case['kw'], case['gseed'], case.get('over'), case.get('fam'), case.get('gspec_fixed'))
     else:
-        run_generic(ctx, case['grid'], case['shape'], case.get('over'), want_model=False)
+        run_generic(ctx, case['grid'], case['shape'], case.get('over'), want_model=False, hist=case.get('hist'))
     for v in ctx.violations:
         print('  fails:', v['key'], '-', v['what'])
     return not ctx.violations
